@@ -195,7 +195,7 @@ def verify_bundle(name, workdir, rlimit=30, canary=True):
     except (KeyError, TypeError):
         pass
     for u in units:
-        if u.kind != 'fn' or u.mode != 'prove':
+        if u.kind not in ('fn', 'lemma') or u.mode != 'prove':
             continue
         for fn, l0, l1 in u.emitted:
             ob = Obligation(name, u, fn)
@@ -224,7 +224,7 @@ def verify_bundle(name, workdir, rlimit=30, canary=True):
                 ob.status = 'undecided'
                 ob.kind = 'unknown'
                 ob.detail = '\n'.join(b.text for b in mine)[:3000]
-            if canary:
+            if canary and u.kind == 'fn':
                 ci = cbd.get(fn + '__canary') or cbd.get(fn) if '__case_' not in fn else cbd.get(fn)
                 c0, c1 = cranges.get(fn, (l0, l1))
                 cfail = [b for b in cblocks if any(c0 <= l <= c1 for l in b.lines)]
